@@ -226,6 +226,68 @@ def check(c):
                  c.where(lp, rq), '')
             del body
 
+    # ---- unique membership (last queue listing a task wins)
+    mi = c.func(Q, 'IndepQueueManager._make_indep')
+    # the "owner so far" map: the dict whose entry selects the queue that
+    # loses the member
+    loops = [n for n in c.idx.walk(mi.node) if isinstance(n, ast.For)
+             and norm(n.iter) in ("qconfig['members']", 'qconfig["members"]')]
+    c.exactly('C05.indep', 'member loop in _make_indep', len(loops), 1)
+    for lp in loops:
+        mem = norm(lp.target)
+        # (1) record the current queue as the owner of every member
+        rec = [s for s in lp.body if isinstance(s, ast.Assign)
+               and isinstance(s.targets[0], ast.Subscript)
+               and norm(s.targets[0].slice) == mem
+               and norm(s.value) == 'qname']
+        c.ob('C05.indep', f'{mi.fq} :: owner[{mem}] = qname for every listed '
+             'member (unconditional, top level of the loop)', len(rec) == 1,
+             c.where(lp, mi), 'the last queue listing a task becomes its '
+             'owner' if rec else 'the owner map is not updated to the current '
+             'queue on every listing: with three or more queues listing a '
+             'task an earlier queue keeps it as a member')
+        owner = norm(rec[0].targets[0].value) if rec else 'seen'
+        # (2) the previous owner loses the member
+        rem = [n for n in ast.walk(lp) if isinstance(n, ast.Call)
+               and isinstance(n.func, ast.Attribute)
+               and n.func.attr in ('remove', 'discard')
+               and n.args and norm(n.args[0]) == mem
+               and 'Q_DEFAULT' not in norm(n.func.value)]
+        c.floor('C05.indep', 'removal from the previous owner queue',
+                len(rem), 1)
+        for r in rem:
+            q = r.func.value
+            idxs = [norm(s.slice) for s in ast.walk(q)
+                    if isinstance(s, ast.Subscript)]
+            prev = [i for i in idxs if i not in ("'members'", '"members"')]
+            src = [a for a in ast.walk(lp) if isinstance(a, ast.Assign)
+                   and prev and norm(a.targets[0]) == prev[0]]
+            ok = bool(src) and norm(src[0].value) == f'{owner}[{mem}]'
+            c.ob('C05.indep', c.key(r, mi) + f' removes from {owner}[{mem}]',
+                 ok, c.where(r, mi), '')
+            c.guard('C05.indep', r, [f'{mem} in {owner}'], mi)
+        # (3) removal from the default queue
+        dq = [n for n in ast.walk(lp) if isinstance(n, ast.Call)
+              and isinstance(n.func, ast.Attribute)
+              and n.func.attr in ('remove', 'discard')
+              and 'Q_DEFAULT' in norm(n.func.value)]
+        c.floor('C05.indep', 'removal from the default queue', len(dq), 1)
+        # (4) default queue itself is skipped
+        par = c.idx.parent[id(lp)]
+        skip = [s for s in (par.body if isinstance(par, ast.For) else [])
+                if isinstance(s, ast.If) and c.find(
+                    s.test, 'qname == self.Q_DEFAULT')
+                and isinstance(s.body[-1], ast.Continue)]
+        c.ob('C05.indep', f'{mi.fq} :: default queue not processed as an '
+             'owner', bool(skip), c.where(lp, mi), '')
+    ini = c.func(Q, 'IndepQueueManager.__init__')
+    c.floor('C05.indep', 'queues = self._make_indep(queues)', len(
+        c.find(ini, 'self._make_indep(_)')), 1)
+    c.floor('C05.indep', 'default queue gets all task names', len([
+        s for s in c.idx.walk(ini.node) if isinstance(s, ast.Assign)
+        and norm(s.targets[0]) == "qconfig[self.Q_DEFAULT]['members']"
+        and norm(s.value) == 'set(all_task_names)']), 1)
+
     # who may call push_task_if_limited
     table = [
         ('task_pool:TaskPool.queue_or_trigger', ['!_.state.is_queued'],
